@@ -780,6 +780,20 @@ def observe_extend(base):
         raise
     except Exception as ex:  # noqa
         raise Unsupported("extend_record raised %r on the probe records" % (ex,))
+    # a record TYPE that recurs later in the list takes part in the precedence like any other record
+    A, B = RD("probe/ra", [("string", "key"), ("varint", "n")]), RD("probe/rb", [("varint", "key"), ("string", "m")])
+    a1, b1, a2 = A(key="0001", n=1, _generated=e["G1"]), B(key=7, m="m", _generated=e["G1"]), A(key="0099", n=3, _generated=e["G2"])
+    try:
+        for replace, want_t, want_v in ((True, "string", "0099" if res[True] else "0001"), (False, "string", "0099" if res[False] else "0001")):
+            out = base.extend_record(a1, [b1, a2], replace=replace)
+            got_t = dict((n, t) for t, n in out._desc.get_field_tuples()).get("key")
+            if got_t != want_t or out.key != want_v:
+                raise Unsupported("extend_record(A(key='0001'), [B(key=7), A(key='0099')], replace=%r) with A.key string, B.key varint "
+                                  "gave key=%r of type %s" % (replace, out.key, got_t))
+    except Unsupported:
+        raise
+    except Exception as ex:  # noqa
+        raise Unsupported("extend_record raised %r on probe records whose type recurs (A, B, A)" % (ex,))
     return dict(rev_replace=res[True], rev_keep=res[False], chain_in_order=True)
 
 
@@ -844,6 +858,17 @@ def observe_expand(base):
     same = list(base.iter_timestamped_records(nots))
     if len(same) != 1 or same[0] is not nots:
         raise Unsupported("a record without datetime fields is not yielded as it is")
+    # a record type whose own first fields are (datetime ts, string ts_description) is expanded like any other
+    C = e["RD"]("probe/own", [("datetime", "ts"), ("string", "ts_description"), ("datetime", "seen")])
+    rc = C(ts=e["T1"], ts_description="mine", seen=e["T2"], _generated=e["G1"])
+    try:
+        oc = [(o.ts, o.ts_description) for o in base.iter_timestamped_records(rc)]
+        again = [(o.ts, o.ts_description) for o in base.iter_timestamped_records(outs[0])]
+    except Exception as ex:  # noqa
+        raise Unsupported("iter_timestamped_records raised %r on a record that has fields ts / ts_description itself" % (ex,))
+    if oc != [(e["T1"], "ts"), (e["T2"], "seen")] or again != [(e["T1"], "ts"), (e["T1"], "a")]:
+        raise Unsupported("iter_timestamped_records on probe/own(datetime ts, string ts_description, datetime seen) yielded %r, on an "
+                          "expanded record again %r" % (oc, again))
     return dict(select=sel[0], from_original=from_original, meta=metas[0])
 
 
